@@ -111,7 +111,7 @@ def c10_4(cx):
 AC = r"^function::accumulated::<impl function::IngredientImpl<C>>::"
 
 
-@ob("C11.1", ["C11"], "reading accumulated values without an untracked read caches a stale list; walking before the function is up to date reads last revision's values", kind="ORDER")
+@ob("C11.1", ["C11"], configs=("default", "persistence"), nec="reading accumulated values without an untracked read caches a stale list; walking before the function is up to date reads last revision's values", kind="ORDER")
 def c11_1(cx):
     """accumulated_by: report_untracked_read(current_revision) and self.fetch(..) precede the walk (the first ingredient.accumulated call)."""
     b = cx.fn(AC + r"accumulated_by$")
@@ -128,7 +128,7 @@ def c11_1(cx):
     cx.flow(am, o, [r"0: zalsa_local::QueryRevisions::accumulated\(.*refresh_memo\(.*\)\.header\.revisions\), 1: accumulator::accumulated_map::AtomicInputAccumulatedValues::load\(.*refresh_memo\(.*\)\.header\.revisions\.accumulated_inputs\)"], [], "accumulated_map returns (this memo's values, this memo's input flag)")
 
 
-@ob("C11.2", ["C11"], "a FIFO or unreversed walk changes the order of the values; skipping `visited` duplicates them; pruning on a non-empty flag loses values", kind="FLOW")
+@ob("C11.2", ["C11"], configs=("default", "persistence"), nec="a FIFO or unreversed walk changes the order of the values; skipping `visited` duplicates them; pruning on a non-empty flag loses values", kind="FLOW")
 def c11_2(cx):
     """The walk pops from the END of the stack (Vec::pop), pushes origin.inputs().rev(), expands a key only if visited.insert(k) was new, and skips a subtree only if the reported InputAccumulatedValues is_empty()."""
     b = cx.fn(AC + r"accumulated_by$")
@@ -150,7 +150,7 @@ def c11_2(cx):
     cx.check(not b.reaches(ext, ew) or b.reaches(ew, ext), "own values are appended before the children are pushed", ew, key="own-before-children")
 
 
-@ob("C11.3", ["C11"], "a memo whose inputs accumulate but whose flag says Empty is pruned from the walk: values are lost after verification/backdating", kind="FLOW")
+@ob("C11.3", ["C11"], configs=("default", "persistence"), nec="a memo whose inputs accumulate but whose flag says Empty is pruned from the walk: values are lost after verification/backdating", kind="FLOW")
 def c11_3(cx):
     """add_read: accumulated_inputs |= (Any if the input memo has accumulated values else the input's flag); unchanged_for_memo likewise; deep_verify_edges ORs every Unchanged{accumulated} and stores the result into the memo; validate_specified_value resets the flag to Empty; prepare_completion moves the execution's accumulated map into the new revisions; cycles assert no accumulated inputs."""
     if "accumulator" not in cx.facts.features:
